@@ -2,7 +2,7 @@
    protocol trace for one (configuration, hint, object, draw), compared with what the harness
    observed on beartype.  Evaluated by vm_compute in generated case files.  No proofs. *)
 From Coq Require Import List ZArith Bool Arith String.
-From BT Require Import Gen.ClassTable Gen.SignSets Gen.Templates Core.PyVal Core.Expr Core.Hint Core.Check.
+From BT Require Import Gen.ClassTable Gen.SignSets Gen.Templates Core.PyVal Core.Expr Core.Hint Core.Check Core.GenProofs.
 Import ListNotations.
 Local Open Scope list_scope.
 
@@ -11,7 +11,18 @@ Inductive obsv := VTrue | VFalse | VExc.
 Definition obsv_eqb (a b : obsv) : bool :=
   match a, b with VTrue, VTrue | VFalse, VFalse | VExc, VExc => true | _, _ => false end.
 
-Definition no_preds (f : nat) (v : pyval) : res pyval := Exc TypeError.
+(* the closed table of user callables the harness places inside Is[...] (the same functions are
+   written in Python in harness/impl/universe.py PREDICATES) *)
+Definition pb_table (f : nat) (v : pyval) : bool :=
+  match f with
+  | 0 => match v with VInt z => (0 <? z)%Z | VBool b => b | _ => false end     (* int and > 0 *)
+  | 1 => match v with VStr s => Nat.ltb 1 (String.length s) | _ => false end   (* str longer than 1 *)
+  | 2 => match v with VNone => true | _ => false end                            (* is None *)
+  | 3 => true
+  | _ => false
+  end.
+
+Definition no_preds : nat -> pyval -> res pyval := preds_of pb_table.
 
 (* trace tokens comparable with the spy log: (kind, class); kinds: 0 len, 1 getitem,
    2 iter+next, 3 values+iter+next *)
@@ -53,13 +64,13 @@ Definition check_case (spied : list nat) (k : case) : bool :=
   && list_eqb pair_eqb
        (tokens spied (trace_of (k_draw k) no_preds (check_expr {| is_random := k_random k |} (k_hint k)) (k_val k)))
        (k_trace k)
-  && match k_sat k with Some b => Bool.eqb (sat (k_hint k) (k_val k)) b | None => true end
+  && match k_sat k with Some b => Bool.eqb (sat pb_table (k_hint k) (k_val k)) b | None => true end
   (* generated objects are well-formed and the functional reading [chk] agrees (both are
      theorems' hypotheses/statements; evaluated here as a cross-check) *)
   && wf (k_val k)
   && match model_verdict k with
-     | VTrue => check {| is_random := k_random k |} (k_draw k) (k_hint k) (k_val k)
-     | VFalse => negb (check {| is_random := k_random k |} (k_draw k) (k_hint k) (k_val k))
+     | VTrue => check {| is_random := k_random k |} (k_draw k) pb_table (k_hint k) (k_val k)
+     | VFalse => negb (check {| is_random := k_random k |} (k_draw k) pb_table (k_hint k) (k_val k))
      | VExc => false
      end.
 
@@ -72,4 +83,4 @@ Fixpoint failing_from (i : nat) (f : case -> bool) (ks : list case) : list nat :
 Definition failing (spied : list nat) (ks : list case) : list nat := failing_from 0 (check_case spied) ks.
 
 (* counts used by the harness for its evidence: how the model classifies each case *)
-Definition sat_flags (ks : list case) : list bool := map (fun k => sat (k_hint k) (k_val k)) ks.
+Definition sat_flags (ks : list case) : list bool := map (fun k => sat pb_table (k_hint k) (k_val k)) ks.
